@@ -27,7 +27,7 @@ CLAIMED = {
     "C12": ("goal-order rules over the catch/throw clauses of builtins.pl (plread), effect summaries of the Rust exception primitives (typed HIR, MIR order), who-may-build-a-thrown-error over every Err(..) of type Result<_, MachineStub>",
             "Decides the control skeleton of catch/3 and throw/1 and the form of builtin errors: throw/1 stores the thrown term (an instantiation error for an unbound ball) before it unwinds; catch/3 captures the outer block before installing its own; the recovery clause restores the outer block, fetches a copy of the ball, parks it and hands it to handle_ball/3, which unifies ball and catcher in its head, commits and calls the recovery, or restores the ball and unwinds again; set_ball stores a copy, unwind_stack cuts to the innermost block and fails, the block and ball-stack primitives do what those clauses need; every error a builtin raises (266 Err(stub) sites, 65 Err(generator) sites, 371 direct throws) is built by error_form, i.e. is error(Formal, Context). setup_call_cleanup/3's exactly-once clause and the undoing of bindings (C11) are not decided here."),
     "C25": ("goal-order and variable-plumbing rules over the findall/forall clauses (plread) + effect summaries of the lifted-heap primitives (typed HIR)",
-            "Decides the collection protocol under every all-solutions predicate: findall/3 and findall/4 remember the length of the solution store before iterating, iterate under catch/3 and on an error cut the store back to that length and re-throw; the iteration predicate calls the goal, copies the template to the store after each solution and fails back; its last clause hands over what was collected since the remembered length; forall/2 is \\+ (G, \\+ T); '$copy_to_lh' stores a copy, '$get_lh_from_offset[_diff]' copies back and cuts the store to the offset given. bagof/3, setof/3 (witness grouping), countall/2 and call_nth/2 are not decided."),
+            "Decides the collection protocol under every all-solutions predicate: findall/3 and findall/4 remember the length of the solution store before iterating, iterate under catch/3 and on an error cut the store back to that length and re-throw; the iteration predicate calls the goal, copies the template to the store after each solution and fails back; its last clause hands over what was collected since the remembered length; forall/2 is \\+ (G, \\+ T); '$copy_to_lh' stores a copy, '$get_lh_from_offset[_diff]' copies back and cuts the store to the offset given; bagof/3 and setof/3 are the same goal sequence up to keysort/2 vs sort/2, order the pairs after the variant witnesses were made identical, and group by the free variables minus the ^-quantified ones (set difference by identity). The grouping algorithm itself (split_by_variant), countall/2 and call_nth/2 are not decided."),
     "C03": ("table agreement between the two evaluators over typed HIR (custom rustc driver)",
             "Decides completely the clause 'both evaluators are the same function of their operands': per evaluable functor the compiled instruction handler and the run-time tree walker reach the same implementation functions with the same constant arguments; key sets coincide; operand fetch is shared. Correctness of the shared implementations is C01/C02."),
     "C04": ("oracle-table and sibling-agreement rules over typed HIR (custom rustc driver)",
